@@ -1,7 +1,12 @@
 import Props.C07
+import Props.C13
 #print axioms C07.new_establishes_inv
 #print axioms C07.decode_safe
 #print axioms C07.yuvToRgb_safe
 #print axioms C07.encode_safe
 #print axioms C07.undersized_chroma_rejected
 #print axioms C07.uncovered_plane_rejected
+#print axioms C18.exp2_total
+#print axioms C18.curve_total
+#print axioms C13.rgbToLinear_total
+#print axioms C13.linearToRgb_total
